@@ -182,9 +182,13 @@ func init() {
 // ---------------------------------------------------------------------------
 // protobuf getters of the generated old-faithful-grpc messages (the package cannot be a source
 // root: it instantiates generics of google.golang.org/grpc). A generated getter is
-//   func (x *T) GetF() FT { if x != nil { return x.F }; return <zero> }
+//
+//	func (x *T) GetF() FT { if x != nil { return x.F }; return <zero> }
+//
 // and for a oneof member
-//   func (x *T) GetF() *M { if w, ok := x.GetOneof().(*T_F); ok { return w.F }; return nil }
+//
+//	func (x *T) GetF() *M { if w, ok := x.GetOneof().(*T_F); ok { return w.F }; return nil }
+//
 // c08PbGetter implements exactly that by field name.
 func c08PbGetter(field string) externalFn {
 	return func(fr *frame, args []value) value {
